@@ -36,8 +36,10 @@ def ubsan_kind(msg):
 def classify(frames):
     """frames: list of (function, file). Returns (owner, site): owner in library / harness / external."""
     for fn, fl in frames:
-        if re.search(r"\b(Pomerol|pMPI)::", fn):
-            return "library", strip_fn(fn)
+        sfn = strip_fn(fn)
+        # the function itself must live in the library's namespaces (template arguments naming library types do not count)
+        if re.match(r"^(?:[\w:<>\*&\s]*\s)?(Pomerol|pMPI)::", sfn):
+            return "library", sfn
         if fl and "/repo/" in fl or (fl and re.search(r"/(src|include)/(pomerol|mpi_dispatcher)/", fl)):
             return "library", strip_fn(fn)
         if re.search(r"\bvh::|_run\(vh::Ctx&\)|\bmain\b", fn) or (fl and "/verif/harness/" in fl):
